@@ -165,8 +165,18 @@ def dag_traces(maxn=6):
         for o in q.values:
             o.state()
             lazy.append(qpos[id(o)])
+        # a builder that hands new_operator one scratch list and reuses it for the next operator: the list stays the caller's
+        r = Pipeline(f"r{tid}", Priority.QUERY)
+        rops, scratch = [], []
+        for k in range(n):
+            scratch.clear()
+            scratch.extend(rops[j - 1] for j in par[k])
+            rops.append(r.new_operator(scratch if scratch else None))
+        scratch.clear()
+        rpos = {id(o): k + 1 for k, o in enumerate(rops)}
+        scr = [rpos[id(o)] for o in r.values]
         lines.append([{"tid": tid, "n": n, "par": [list(x) for x in par], "iter": it1, "iter2": it2, "status": st, "len": len(p.values),
-                       "lock": lock, "nested": nested, "lazy": lazy}])
+                       "lock": lock, "nested": nested, "lazy": lazy, "scratch": scr}])
     return lines
 
 
